@@ -111,6 +111,16 @@ theorem C01_path_same_command {t : TTree} {c k : Nat} {path : List Str} (hp : Pa
   rw [find_path hp hne (fuel + 1) ws]
   exact find_stays t (fuel + 1) k ws hnc
 
+/-- **C07, sub-command names**: a name (or alias) of a child of the command a path of names leads to, typed there, is
+    dispatched by cobra to that very child with nothing left over - so are the words that follow it, handed on unchanged
+    as long as none of them names a grandchild -/
+theorem C07_subcommand_dispatches {t : TTree} {c k k' : Nat} {path : List Str} (hp : Path t c path k) (hne : PathWordsNonEmpty path)
+    (name : Str) (hname : name ≠ []) (hk : childNamed t k name = some k') (fuel : Nat) (ws : List Str) (hnc : NoChild t k' ws) :
+    Cobra.find t (fuel + 2 + path.length) c (path ++ name :: ws) = (k', ws) := by
+  rw [show fuel + 2 + path.length = (fuel + 2) + path.length from rfl, find_path hp hne (fuel + 2) (name :: ws)]
+  rw [show fuel + 2 = (fuel + 1) + 1 from rfl, find_descend t (fuel + 1) k k' name ws hname hk]
+  exact find_stays t (fuel + 1) k' ws hnc
+
 /-- non-vacuity: `root sub --flag x` in a two-command tree -/
 example :
     let root : TCmd := { name := "root".toList }
